@@ -53,7 +53,8 @@ int ipme_is(ip) struct ip_address *ip; {
 static const unsigned char *mr_p; static size_t mr_n, mr_pos;
 static ssize_t memread(int fd, char *buf, size_t len) {
   size_t k = mr_n - mr_pos; if (k > len) k = len;
-  memcpy(buf, mr_p + mr_pos, k); mr_pos += k; return k;
+  if (k) memcpy(buf, mr_p + mr_pos, k);
+  mr_pos += k; return k;
 }
 static int cap_verb, cap_rc; static hbuf cap_addr;
 static void cap_mail(char *arg) { cap_verb = 1; cap_rc = addrparse(arg); hbuf_reset(&cap_addr); if (addr.len) hbuf_add(&cap_addr, addr.s, addr.len - 1); }
@@ -171,13 +172,14 @@ int main(int argc, char **argv) {
   int shard = h_argi(argc, argv, 5, 0), nshards = h_argi(argc, argv, 6, 1);
   unsigned char m[8192];
   uint64_t id = 0;
-  /* (Q1) every local part over the 17-byte alphabet: all domains up to maxq-1, one domain at maxq */
+  /* (Q1) every local part over the 17-byte alphabet: all 8 domains up to maxq-2, one of the 8 (rotating) at maxq-1, x.y at maxq */
   for (int len = 0; len <= maxq; len++) {
     uint64_t total = 1; for (int i = 0; i < len; i++) total *= 17;
     for (uint64_t k = 0; k < total; k++, id++) {
       if ((int)(id % nshards) != shard) continue;
       uint64_t v = k; for (int i = 0; i < len; i++) { m[i] = qalpha[v % 17]; v /= 17; }
-      if (len < maxq) for (unsigned d = 0; d < NDOMS; d++) caseQ(m, len, (const unsigned char *)doms[d], strlen(doms[d]));
+      if (len + 1 < maxq) for (unsigned d = 0; d < NDOMS; d++) caseQ(m, len, (const unsigned char *)doms[d], strlen(doms[d]));
+      else if (len < maxq) { const char *d = doms[k % NDOMS]; caseQ(m, len, (const unsigned char *)d, strlen(d)); }
       else caseQ(m, len, (const unsigned char *)"x.y", 3);
     }
   }
